@@ -374,7 +374,9 @@ pub fn run(h: &KHist, reach: &mut BTreeMap<&'static str, u64>) -> Option<(String
                 }
                 procs[k].action.insert(name, *act);
                 if *act == 1 {
-                    // setting a signal to be ignored may discard a pending instance
+                    // setting a signal to be ignored discards a pending instance
+                    // (POSIX, sigaction: "whether or not it is blocked")
+                    procs[k].pending.remove(name);
                 }
             }
             KOp::SetPgid(p, t, g) => {
